@@ -20,6 +20,7 @@ CACHE = os.path.join(VERIF, ".cache" + _tag)
 BUILD = os.path.join(CACHE, "build")
 COQ = os.path.join(VERIF, "coq")
 GUARD = "DISPATCH_VERIF"
+COQ_MEM_KB = 10 * 1024 * 1024   # per coqc process (ulimit -v): a runaway tactic must not take the sandbox down
 CC = "clang-16"
 CXX = "clang++-16"
 
@@ -180,7 +181,8 @@ def coq_make(targets, timeout=1500, jobs=16):
             r = run(["coq_makefile", "-f", "_CoqProject", "-o", "Makefile"], cwd=d, timeout=120)
             if r.returncode != 0:
                 return False, "coq_makefile failed: " + r.stderr
-        r = run(["make", "-k", "-j%d" % jobs] + list(targets), cwd=d, timeout=timeout)
+        r = run(["bash", "-c", "ulimit -v %d; exec make -k -j%d TIMED=1 %s" % (COQ_MEM_KB, jobs, " ".join(targets))],
+                cwd=d, timeout=timeout)
         return r.returncode == 0, r.stdout + r.stderr
 
 
